@@ -41,4 +41,6 @@ Inductive gstmt :=
 | SReturn (e : gexpr)
 | SExpr (e : gexpr)                                   (* an expression statement: warnings.warn(...) *)
 | SAug (l : glhs) (op : string) (e : gexpr)           (* t op= e *)
-| SFor (vars : list string) (it : gexpr) (body : list gstmt).   (* for v1, ..., vk in it: body *)
+| SFor (vars : list string) (it : gexpr) (body : list gstmt)    (* for v1, ..., vk in it: body *)
+| SWhile (c : gexpr) (body : list gstmt)                       (* while c: body   (run by Model/GlueWhile.v, with fuel) *)
+| SBreak.
